@@ -165,7 +165,8 @@ impl RefOnt {
     pub fn derive(f: &Facts) -> RefOnt {
         let mut terms: BTreeMap<u32, RefTerm> = BTreeMap::new();
         for t in &f.terms {
-            // first fact for an id wins (Builder::new_term with a repeated id "does nothing")
+            // first fact for an id wins: a convention of the model (the fact sets of the properties carry one name per id; the
+            // spaces that repeat an id accept either name)
             terms.entry(t.id).or_insert_with(|| RefTerm { name: t.name.clone(), obsolete: t.obsolete, replacement: t.replacement, ..Default::default() });
         }
         for &(c, p) in &f.edges {
